@@ -41,6 +41,7 @@ GATES = {
     "pushdata-forms": ["push:75", "push:76..255", "push:256..520"],
     "varint-widths-counts": ["incount:>=253", "outcount:>=253", "witcount:>=253", "scriptlen:>=253", "witem:>=65536", "witem:253..65535"],
     "tx-forms": ["form:legacy", "form:segwit"],
+    "near-template-scripts": ["script:near-template:" + v for v in ("exact", "trailing-opcode", "trailing-push", "leading-opcode", "hash-length", "doubled")],
     "txid": ["txid:witness-edit-same", "txid:nonwitness-edit-differs"],
     "roundtrips": ["rt:bytes", "rt:fields"],
     "amount-bounds": ["amount:2^64-1", "amount:0"],
@@ -316,7 +317,32 @@ WITEM_LENS = [0, 1, 75, 76, 252, 253, 254, 1000]
 WITEM_BIG = [65535, 65536, 70000]
 
 
+def near_template(rng, ctx):
+    """Standard output templates and their near misses (an extra opcode or push before/after, a hash of the wrong
+    length): the parser recognises templates structurally, so a near miss must keep every byte."""
+    h20, h32 = rng.randbytes(20), rng.randbytes(32)
+    base = rng.choice([
+        [0x76, 0xA9, h20, 0x88, 0xAC], [0xA9, h20, 0x87], [0, h20], [0, h32], [0x51, h32],
+    ])
+    variant = rng.choice(["exact", "trailing-opcode", "trailing-push", "leading-opcode", "hash-length", "doubled"])
+    cmds = list(base)
+    if variant == "trailing-opcode":
+        cmds.append(rng.choice([0x61, 0x75, 0x51, 0xAC, 0x87]))
+    elif variant == "trailing-push":
+        cmds.append(rng.randbytes(rng.choice([1, 20, 32])))
+    elif variant == "leading-opcode":
+        cmds.insert(0, rng.choice([0x61, 0x51, 0]))
+    elif variant == "hash-length":
+        cmds = [(rng.randbytes(len(c) + rng.choice([-1, 1])) if not isinstance(c, int) else c) for c in cmds]
+    elif variant == "doubled":
+        cmds = cmds + cmds
+    ctx.count("script:near-template:" + variant)
+    return tc.script_bytes(cmds)
+
+
 def gen_script(rng, ctx, max_cmds=6, force_len=None, big=False):
+    if force_len is None and not big and rng.random() < 0.15:
+        return near_template(rng, ctx)
     cmds = []
     n = rng.randrange(0, max_cmds + 1)
     for _ in range(n):
